@@ -42,6 +42,9 @@ TEXTBOOK = {
     "handle-between": G + 'e = e e | e "+" e | "x";\n@left <e = e e>;\nstart = e;\n@left "+";\n@left "x";\n',
     "two-handles": G + 'start = e;\ne = e e | e f | "x";\nf = "y";\n@left <e = e e> <e = e f>;\n@left "x" "y";\n',
     "unary": G + 'start = e;\ne = "-" e | e "-" e | "x";\n@left "-";\n',
+    # a rule handle of several alternatives BEHIND other handles of its directive (round 10: every alternative keeps its level)
+    "handle-alts-behind": G + '@left "*";\n@left "+" "-" <e = e a e | e b e>;\nstart = e;\ne = e "*" e | e a e | e b e | "x";\na = "+";\nb = "-";\n',
+    "handle-alts-behind-3": G + 'start = e;\ne = e "*" e | e a e | e b e | e c e | "x";\na = "+";\nb = "-";\nc = "%";\n@left "*";\n@left <e = e c e> "+" "-" "%" <e = e b e | e a e>;\n',
     "empty-amb": G + 'start = aa aa;\naa = "a" | ;\n',
     "eps-cycle": G + 'start = start start | "a" | ;\n',
 }
